@@ -204,7 +204,9 @@ def order(repo: Repo, chk: Check) -> None:
         t = s.node.targets[0]
         if lp and isinstance(lp[0].target, ast.Tuple) and ret_name and norm.match(T(f"enumerate({ret_name})"), lp[0].iter) is not None:
             i, sw = (x.id for x in lp[0].target.elts)  # type: ignore[attr-defined]
-            ok_r = ast.unparse(t) == f"{ret_name}[{i}]" and ast.unparse(s.node.value) == f"mapping[{sw}]" and bool(has_fact(s, [f"isinstance({sw}, phs.MuxOp)"]))
+            mv = norm.match(T(f"$map[{sw}]"), s.node.value)
+            from_search = mv is not None and depends_on(fl.cone(mv["map"], s, inline=0), "search_mapping($a, $b, $c)")
+            ok_r = ast.unparse(t) == f"{ret_name}[{i}]" and from_search and bool(has_fact(s, [f"isinstance({sw}, phs.MuxOp)", f"isinstance({sw}, MuxOp)"]))
     chk.result(ok_r, "C20.decode-order", f"{f.key}:in-place", repl[0].where() if repl else f.where, "a mux placeholder at index i is replaced by mapping[that mux] at index i",
                "mux placeholders are not replaced in place by the value found for that mux")
 
@@ -261,9 +263,24 @@ def accelerator(repo: Repo, chk: Check) -> None:
         raise AnalysisError(f"{c.where}: __init__/get_switch_values missing")
     chk.analysed(init.key, gv.key)
     chk.rule("C20.accelerator", "the PHS accelerator declares one phs_switch field per counted switch and generates its values with decode_abstract_graph(own PE, candidate)", floor=2)
-    src = ast.unparse(init.node)
-    chk.result("for i in range(self.pe.get_true_switches()):" in src and "phs_switch_" in src, "C20.accelerator", f"{init.key}:fields", init.where,
+    okf = False
+    for n in ast.walk(init.node):
+        if isinstance(n, (ast.For, ast.comprehension)) and norm.match(T("range(self.pe.get_true_switches())"), n.iter) is not None:
+            body = n if isinstance(n, ast.For) else init.node
+            okf = any(isinstance(x, ast.JoinedStr) and any(isinstance(v, ast.Constant) and "phs_switch_" in str(v.value) for v in x.values) for x in ast.walk(body))
+    chk.result(okf, "C20.accelerator", f"{init.key}:fields", init.where,
                "phs_switch_i fields for i in range(get_true_switches())", "the number of phs_switch fields no longer comes from PEOp.get_true_switches()")
-    gsrc = ast.unparse(gv.node)
-    chk.result("decode_abstract_graph(self.pe, " in gsrc and "for value in switch_values" in gsrc, "C20.accelerator", f"{gv.key}:values", gv.where,
+    gfl2 = Flow(gv, repo)
+    okg = False
+    for sr in gfl2.stmts(ast.Return):
+        if sr.node.value is None:
+            continue
+        cone = gfl2.cone(sr.node.value, sr, inline=0)
+        # every returned element derives from one decoded value: a comprehension over decode_abstract_graph(self.pe, <candidate>)
+        for n in ast.walk(cone):
+            if isinstance(n, (ast.ListComp, ast.GeneratorExp)) and len(n.generators) == 1 and not n.generators[0].ifs:
+                it = gfl2.cone(n.generators[0].iter, sr, inline=0)
+                if norm.contains(it, T("decode_abstract_graph(self.pe, $c)")):
+                    okg = True
+    chk.result(okg, "C20.accelerator", f"{gv.key}:values", gv.where,
                "one constant per decoded switch value, decoded against the accelerator's own PE")
